@@ -544,6 +544,40 @@ def cheap_tokens(text):
     return [(m.start(), m.end()) for m in _TOKEN_RE.finditer(text) if not m.group(0).isspace()]
 
 
+_EDIT_TABLE = [
+    ["int", "long", "char", "short", "unsigned", "double"],
+    ["T", "U", "V"],
+    ["x", "y", "f"],
+    ["0", "1", "2", "42", "7L", "3u"],
+    ["struct", "union"],
+    ["+", "-", "*"],
+    ["<", ">", "<=", "=="],
+]
+
+
+def edit_items(rng, items, n_edits=1):
+    """A near-duplicate of a program: the same text with one or two lexemes
+    replaced by another of the same kind (what a user's edit / the next file of
+    a generated family looks like).  Token positions stay aligned with the
+    original up to the edit."""
+    items = list(items)
+    for _ in range(n_edits):
+        cands = []
+        for i, it in enumerate(items):
+            for (s, e) in cheap_tokens(it):
+                lex = it[s:e]
+                for row in _EDIT_TABLE:
+                    if lex in row:
+                        cands.append((i, s, e, row))
+        if not cands:
+            return items, "none"
+        i, s, e, row = rng.choice(cands)
+        old = items[i][s:e]
+        new = rng.choice([w for w in row if w != old])
+        items[i] = items[i][:s] + new + items[i][e:]
+    return items, "edit %r -> %r" % (old, new)
+
+
 def mutate_items(rng, items, kind):
     """Apply one input fault to the item list; returns (new_items, description).
 
